@@ -237,6 +237,15 @@ func (v *Vue) parseObjectPairs(ctx VueContext, content string) []objectPair {
 
 		// Try to resolve as expression first (handles literals and expressions)
 		val, err := v.exprEval.Eval(valueExpr, v.exprEnv(ctx))
+		if err != nil && strings.HasPrefix(valueExpr, "!") {
+			// A negated operand the expression library cannot negate (nil, a number, a
+			// string, an undefined name, a path only the stack resolves): the same meaning
+			// as in v-if / v-show - the negation of the operand's truthiness.
+			if neg, cerr := v.evalConditionExpr(ctx, valueExpr); cerr == nil {
+				pairs = append(pairs, objectPair{key: key, value: neg, defined: true})
+				continue
+			}
+		}
 		if err != nil {
 			// Fall back to stack resolution for variable references
 			var ok bool
